@@ -11,6 +11,7 @@ PRINT = "compiler/src/ast/print_statement.rs"
 SPEC = r"""
 pub uninterp spec fn frames_to_loop(n: &Node) -> Option<int>;          // AssocFileData::scopes_since_loop at this statement: None outside every loop
 #[verifier::external_body] pub fn scopes_since_loop(n: &Node) -> (r: Result<usize, VErr>) ensures r is Ok <==> frames_to_loop(n) is Some, r is Ok ==> r->Ok_0 == frames_to_loop(n)->Some_0 { unimplemented!() }
+pub fn res_or(x: Result<usize, VErr>, d: usize) -> (r: usize) ensures r == (if x is Ok { x->Ok_0 } else { d }) { match x { Ok(v) => v, Err(_) => d } }
 pub struct Break { pub frames_since_loop: usize }
 pub struct Continue { pub frames_since_loop: usize }
 pub uninterp spec fn parsed_value(n: &Node) -> Option<Value>;
@@ -25,6 +26,7 @@ def build(repo):
     R = parser_idioms() + [
         Rule("R6", "input . user_data ( ) . scopes_since_loop ( )", "scopes_since_loop ( & input )", why="scope walk abstract (its own obligation: C01.scopes_since_loop)"),
         Rule("R3", "map_err ( frames_since_loop , $$rest ) ?", "frames_since_loop ?", why="diagnostic text dropped (that a diagnostic IS returned is kept)"),
+        Rule("R9", "$x . unwrap_or ( $d )", "res_or ( $x , $d )", why="Result::unwrap_or"),
         Rule("R6", "input . children ( )", "children ( & input )", why="pest API abstract"),
         Rule("R8", "children ( & input ) . next ( ) . unwrap ( )", "unwrap_node ( children ( & input ) . next ( ) )", why="unwrap on the first child: grammar child count (R8)"),
         Rule("R6", "Self :: value ( item ) ?", "parse_value_of ( item ) ?", why="sub-parser abstract"),
